@@ -11,6 +11,8 @@ MODS = ["hits := 0\nreturn {bump: func() { hits += 1; return hits }}\n"]
 FUNCS = {
  "add": "add := func(a, b) { counter += 1; return a + b + counter }\n",
  "vr": "vr := func(a, ...r) { counter += len(r); return [a, r, counter] }\n",
+ "vk": "kept := []\nvk := func(...r) { kept = append(kept, r); counter += len(kept); return kept }\n",
+ "vw": "vw := func(a, ...r) { if len(r) > 0 { r[0] += a }; r = append(r, counter); return r }\n",
  "thr": "thr := func(x) { if x > 1 { throw error(\"big\") }; return x }\n",
  "rec": "var rec\nrec = func(n) { if n <= 0 { return counter }; return 1 + rec(n - 1) }\n",
  "tail": "var tail\ntail = func(n, acc) { if n <= 0 { return acc }; return tail(n - 1, acc + n) }\n",
@@ -24,7 +26,7 @@ FUNCS = {
  "div": "div := func(a, b) { return a / b }\n",
  "cb": "cb := func(n) { return invoke(add, n, n) }\n",
 }
-ARITY = {"add": 2, "vr": None, "thr": 1, "rec": 1, "tail": 2, "disc": 1, "imp": 1, "glob": 1, "nest": 1, "cat": 1, "clo": 1, "div": 2, "cb": 1}
+ARITY = {"add": 2, "vr": None, "vk": None, "vw": None, "thr": 1, "rec": 1, "tail": 2, "disc": 1, "imp": 1, "glob": 1, "nest": 1, "cat": 1, "clo": 1, "div": 2, "cb": 1}
 
 def gen_seq(rng, names):
     seq = []
@@ -112,7 +114,7 @@ def run(rep, br, proofs, rng, tier):
             rep.violation({"property": "C14", "kind": "correspondence", "why": "argument binding model (VM/CallBinding.v) and implementation disagree", "case": c["line"], "impl": c["impl"], "model": c["model"]}, found=False)
     rep.coverage.update({
         "evaluations": len(cases) + len(tcases), "distinct_nontrivial": accepted + compared,
-        "rule": "argument binding: every (0..4 parameters, fixed / variadic, 0..6 arguments, plain / spread with arrays of 0..3 elements or a non-array) through an in-script call, Run and Invoker.Invoke, implementation vs model and entry points against each other on accepted tuples; invoke twins: generated definitions (counters captured by closures, variadic, throwing, recursive incl. tail and discarded self calls, importing, global-writing, try/finally, nested callbacks) x call sequences executed in-script, through a Go callback during the run (pooled / unpooled Invoker made per call, and one Invoker per function kept for the whole run so that its child VM is re-used) and after the run (pooled / unpooled), comparing every result, error text and the final captured state",
+        "rule": "argument binding: every (0..4 parameters, fixed / variadic, 0..6 arguments, plain / spread with arrays of 0..3 elements or a non-array) through an in-script call, Run and Invoker.Invoke, implementation vs model and entry points against each other on accepted tuples; invoke twins: the host re-uses one argument buffer for all its Invoke calls; generated definitions (counters captured by closures, variadic incl. functions that keep or write through their variadic parameter, throwing, recursive incl. tail and discarded self calls, importing, global-writing, try/finally, nested callbacks) x call sequences executed in-script, through a Go callback during the run (pooled / unpooled Invoker made per call, and one Invoker per function kept for the whole run so that its child VM is re-used) and after the run (pooled / unpooled), comparing every result, error text and the final captured state",
         "samples": [cases[5]["line"], tcases[0]["line"][:600]],
         "binding_cases": len(cases), "binding_accepted": accepted, "twin_runs_compared": compared,
         "disagreements": len(dis), "oracle_failures": len(fails)})
